@@ -372,8 +372,9 @@ def wiring_rule(ctx, repo):
     ev.run(sp, A)
     me = T.atom(sp.params[0])
     cp, ce, csc = T.atom("checkpoint_path"), T.atom("checkpoint_every"), T.atom("checkpoint_save_config")
-    D = next((s_ for e in ev.events for a in e.args for s_ in T.subterms(a)
-              if s_ and s_[0] == "f" and s_[1] == "getattr" and len(s_[2]) >= 2 and s_[2][1] == T.K("_checkpoint_defaults")), None)
+    # the defaults object: getattr(self, "_checkpoint_defaults", None) or the attribute read directly
+    D = next((s_ for e in ev.events for a in list(e.args) + [v_ for _, v_ in e.kwargs] for s_ in T.subterms(a)
+              if s_ and ((s_[0] == "f" and s_[1] == "getattr" and len(s_[2]) >= 2 and s_[2][1] == T.K("_checkpoint_defaults")) or s_ == ("attr", me, "_checkpoint_defaults"))), None)
     sets = {e.args[1][1]: e for e in ev.events if e.func is sp and e.callee == "method:setdefault" and len(e.args) == 3 and e.args[1][0] == "k"}
     if D is None or "checkpoint_file_path" not in sets or "checkpoint_every" not in sets:
         ctx.refute("C12.wire", sp.ident, loc_of(sp), "sample_posterior does not hand checkpoint_file_path / checkpoint_every to the sampler "
@@ -474,6 +475,7 @@ NEUTRALS = [
     M("dataset replaced rather than resized", _U, "if dsetname not in target:\n        target.create_dataset(\n            dsetname, shape=bdata.shape, maxshape=(None,), dtype=bdata.dtype\n        )\n    elif bdata.size != target[dsetname].shape[0]:\n        target[dsetname].resize((bdata.size,))\n    target[dsetname][:] = bdata",
       "if dsetname in target:\n        del target[dsetname]\n    target.create_dataset(dsetname, data=bdata)"),
     M("dataset through a local", _U, "target[dsetname][:] = bdata", "dset = target[dsetname]\n    dset[:] = bdata"),
+    M("context defaults read as a plain attribute", _A, "defaults = getattr(self, \"_checkpoint_defaults\", None)", "defaults = self._checkpoint_defaults", within="Aspire.sample_posterior"),
     M("resize test mirrored", _U, "elif bdata.size != target[dsetname].shape[0]:", "elif target[dsetname].shape[0] != bdata.size:"),
 ]
 
